@@ -64,7 +64,9 @@ def run_case(c):
                     op = rnd.choice(ops)
                     inp = rnd_inputs(rnd, op)
                     R1, R2 = dec(inp["R1"]), dec(inp["R2"])
-                    clock.now += rnd.choice([0.2, 1.0, 7.5, 3600.0])
+                    # steps that carry into the higher bytes of the little-endian stamp (its hex text then sorts LOWER although time
+                    # moved forward) as well as small and large ones
+                    clock.now += rnd.choice([0.2, 1.0, 7.5, 3600.0, 250.0, 255.0, 65530.0, 16777000.0])
                     now = clock.now
                     a = x["api"]
                     a._reader = n_api.FakeReader([R1, R2])
